@@ -946,3 +946,8 @@ def _fstr_spec(ex, st, shape, *vals):
 @REG.specfn("maxlen")
 def _maxlen(ex, st, d):
     return VInt(ex.deque_maxlen(st, ex.unwrap(d)))
+
+
+@ext("logging.getLogger")
+def _get_logger(ex, st, args, kwargs, k, where):
+    return k(st, VPy("ext", "logger-object"))
